@@ -10,6 +10,7 @@ import (
 	"context"
 	"encoding/binary"
 	"fmt"
+	"strconv"
 	"strings"
 
 	"github.com/asticode/go-astits"
@@ -658,7 +659,53 @@ func rangeOf(spec string, total int) (length int, off *int, ok bool) {
 	panic("unknown byte range kind " + spec)
 }
 
+// litRange: a byte range written LITERALLY into the playlist, whatever the resource's size: "lit:<n>" or
+// "lit:<n>@<o>" with n, o any uint64 (absurd lengths and offsets: 2^62, 2^63-1, 2^63, 2^64-1, offset + length
+// past 2^64). The playlist decoder accepts every uint64.
+func litRange(spec string) (n uint64, off *uint64, ok bool) {
+	if !strings.HasPrefix(spec, "lit:") {
+		return 0, nil, false
+	}
+	t := spec[len("lit:"):]
+	if i := strings.IndexByte(t, '@'); i >= 0 {
+		o, err := strconv.ParseUint(t[i+1:], 10, 64)
+		if err != nil {
+			panic("bad literal byte range " + spec)
+		}
+		off, t = &o, t[:i]
+	}
+	n, err := strconv.ParseUint(t, 10, 64)
+	if err != nil {
+		panic("bad literal byte range " + spec)
+	}
+	return n, off, true
+}
+
+// litFetch: what the UNCHANGED client obtains for a resource listed with a literal range. It asks for
+// bytes=<o>-<o+n-1> (o = 0 without offset; the sum is computed in uint64 and wraps) and the stub server answers
+// as a server does: 416 when the first byte lies past the end or the last byte before the first (refused: the
+// client ends with "bad status code: 416"), otherwise 206 with the bytes that exist.
+func litFetch(spec string, body []byte) (got []byte, refused bool) {
+	n, off, _ := litRange(spec)
+	st := uint64(0)
+	if off != nil {
+		st = *off
+	}
+	last := st + n - 1 // wraps like the client's arithmetic
+	if st >= uint64(len(body)) || last < st {
+		return nil, true
+	}
+	end := last + 1
+	if end > uint64(len(body)) || end == 0 {
+		end = uint64(len(body))
+	}
+	return body[st:end], false
+}
+
 func rangeText(spec string, total int) string {
+	if strings.HasPrefix(spec, "lit:") {
+		return spec[len("lit:"):]
+	}
 	n, off, ok := rangeOf(spec, total)
 	if !ok {
 		return ""
@@ -674,6 +721,10 @@ func rangeText(spec string, total int) string {
 // first of its resource this is the recorded C10 finding range-implicit; C13 only wants no panic, no
 // wedge, an error or normal play); the stub server answers 206 with exactly those bytes.
 func effectiveBytes(spec string, body []byte) []byte {
+	if strings.HasPrefix(spec, "lit:") {
+		got, _ := litFetch(spec, body) // refused: nothing (such recipes are not compared with the model)
+		return got
+	}
 	n, off, ok := rangeOf(spec, len(body))
 	if !ok {
 		return body
@@ -727,6 +778,10 @@ type built struct {
 	Job   job
 	Inits [][]byte   // per stream (nil for MPEG-TS)
 	Segs  [][][]byte // per stream, per segment
+	// Refused: a literal byte range of the recipe is one the stub server answers with 416; LitRange: the recipe
+	// has a literal byte range at all
+	Refused  bool
+	LitRange bool
 }
 
 func buildRecipe(r *Recipe) (*built, error) {
@@ -753,6 +808,12 @@ func buildRecipe(r *Recipe) (*built, error) {
 			initB = applyMuts(initB, s.InitMuts)
 			put(fmt.Sprintf("/s%d_init.mp4", i), initB)
 			initLen = len(initB)
+			if strings.HasPrefix(s.MapRange, "lit:") {
+				b.LitRange = true
+				if _, refused := litFetch(s.MapRange, initB); refused {
+					b.Refused = true
+				}
+			}
 			initB = effectiveBytes(s.MapRange, initB)
 		}
 		for k, sg := range s.Segments {
@@ -770,6 +831,7 @@ func buildRecipe(r *Recipe) (*built, error) {
 		}
 		var segs [][]byte // what the unchanged client obtains for each segment
 		var refs []segRef
+		litSeen, litRefused := false, false
 		if s.Packed {
 			var all []byte
 			for _, b := range bodies {
@@ -799,9 +861,17 @@ func buildRecipe(r *Recipe) (*built, error) {
 				uri := fmt.Sprintf("s%d_seg%d.%s", i, k, ext)
 				put("/"+uri, b)
 				refs = append(refs, segRef{URI: uri, Range: rangeText(s.Segments[k].Range, len(b))})
+				if strings.HasPrefix(s.Segments[k].Range, "lit:") {
+					litSeen = true
+					if _, refused := litFetch(s.Segments[k].Range, b); refused {
+						litRefused = true
+					}
+				}
 				segs = append(segs, effectiveBytes(s.Segments[k].Range, b))
 			}
 		}
+		b.LitRange = b.LitRange || litSeen
+		b.Refused = b.Refused || litRefused
 		b.Inits = append(b.Inits, initB)
 		b.Segs = append(b.Segs, segs)
 		pl := mediaPlaylist(s, i, initLen, refs)
